@@ -110,6 +110,10 @@ pub enum Act {
     Out(usize, u128),
     Fail,
     Loan(u128, Vec<Act>),
+    /// a guarded vault entry point sent BY THE BORROWER from inside its callback (the model: fails, and
+    /// with it the loan): 0 = `Callback(AfterTrade{old_balance: a, loan_amount: b})`, 1 = `UpdateConfig`
+    /// naming the borrower owner, 2 = direct `Withdraw {}`
+    Foreign(u8, u128, u128),
 }
 
 pub fn show_acts(a: &[Act]) -> String {
@@ -123,6 +127,9 @@ pub fn show_acts(a: &[Act]) -> String {
             Act::Out(t, n) => format!("out:{t}:{n}"),
             Act::Fail => "fail".into(),
             Act::Loan(n, cb) => format!("loan:{n}:{}", show_acts(cb)),
+            Act::Foreign(0, a, b) => format!("xcb:{a}:{b}"),
+            Act::Foreign(1, _, _) => "xcfg".into(),
+            Act::Foreign(_, _, _) => "xwd".into(),
         })
         .collect();
     format!("[{}]", parts.join(";"))
@@ -164,6 +171,20 @@ fn parse_list(b: &[char], i: &mut usize) -> Option<Vec<Act>> {
         let act = match word.as_str() {
             "collect" => Act::Collect,
             "fail" => Act::Fail,
+            "xcfg" => Act::Foreign(1, 0, 0),
+            "xwd" => Act::Foreign(2, 0, 0),
+            "xcb" => {
+                if b.get(*i) != Some(&':') {
+                    return None;
+                }
+                *i += 1;
+                let a = parse_num(b, i)?;
+                if b.get(*i) != Some(&':') {
+                    return None;
+                }
+                *i += 1;
+                Act::Foreign(0, a, parse_num(b, i)?)
+            }
             "pay" | "dep" | "wd" => {
                 if b.get(*i) != Some(&':') {
                     return None;
@@ -683,6 +704,22 @@ impl World {
                 }
                 Act::Fail => out.push(self.fail_msg()),
                 Act::Loan(n, cb) => out.push(self.loan_msg(*n, cb)),
+                Act::Foreign(k, a, b) => {
+                    let msg = match k {
+                        0 => to_json_binary(&vmsg::ExecuteMsg::Callback(vmsg::CallbackMsg::AfterTrade { old_balance: (*a).into(), loan_amount: (*b).into() })),
+                        1 => to_json_binary(&vmsg::ExecuteMsg::UpdateConfig(vmsg::UpdateConfigParams {
+                            flash_loan_enabled: None,
+                            deposit_enabled: None,
+                            withdraw_enabled: None,
+                            new_owner: Some(self.accts[3].to_string()),
+                            new_vault_fees: None,
+                            new_fee_collector_addr: None,
+                        })),
+                        _ => to_json_binary(&vmsg::ExecuteMsg::Withdraw {}),
+                    }
+                    .unwrap();
+                    out.push(WasmMsg::Execute { contract_addr: self.vault.to_string(), msg, funds: vec![] }.into());
+                }
             }
         }
         out
@@ -1790,7 +1827,27 @@ fn gen_cb(rng: &mut Rng, o: &Obs, n: u128, pb: u128, depth: u32) -> Vec<Act> {
     let extra = rng.below(if depth >= 2 { 2 } else { 4 });
     let mut owed = pb; // what must flow back in for the balance check, adjusted for what we take out
     for _ in 0..extra {
-        match rng.below(9) {
+        match rng.below(10) {
+            9 => {
+                // guarded entry points from inside the callback; settling one's own loan by hand
+                // (AfterTrade with made-up numbers) is then followed by what it would unlock
+                match rng.below(4) {
+                    0 | 1 => {
+                        let (a, b) = match rng.below(4) {
+                            0 => (0, 0),
+                            1 => (o.bal, n),
+                            2 => (o.bal.saturating_sub(n), n),
+                            _ => (rng.u128() % (o.bal + 1), rng.u128() % (n + 1)),
+                        };
+                        acts.push(Act::Foreign(0, a, b));
+                        if rng.chance(2, 3) {
+                            acts.push(Act::Deposit(if rng.chance(1, 2) { n.max(1) } else { rng.u128() % 1_000_000 + 1 }));
+                        }
+                    }
+                    2 => acts.push(Act::Foreign(1, 0, 0)),
+                    _ => acts.push(Act::Foreign(2, 0, 0)),
+                }
+            }
             0 => {
                 let lp = o.lb[3];
                 if lp > 0 {
